@@ -41,6 +41,14 @@ Theorem tokenizer_reads_back_prefixed_and_suffixed_literals : forall toks, Foral
   tokenize (str_of (render_w toks)) = Some (map (fun t => str_of (snd t)) toks).
 Proof. exact tokenize_render_w. Qed.
 Print Assumptions tokenizer_reads_back_prefixed_and_suffixed_literals.
+(* C octal: `017` is one of the written forms of the theorem above (WwOctal), read back as the token 0o17, which int(token, 0) reads in base 8 *)
+Theorem c_octal_token_is_read_in_base_8 : forall c t, parse_int (str_of ("0"%char :: ch "o" :: c :: t)) = parse_base 8 (c :: t) 0.
+Proof. exact parse_int_octal. Qed.
+Example ex_octal : tokenize "017 + 0x1F" = Some ["0o17"; "+"; "0x1F"] /\ parse_int "0o17" = Some 15%Z
+  /\ wf_wtok (chars_of "017") (chars_of "0o17").
+Proof. split; [vm_compute; reflexivity|]. split; [vm_compute; reflexivity|].
+  apply (WwOctal "1"%char ["7"%char] []); [reflexivity|reflexivity|vm_compute; tauto]. Qed.
+
 Example ex_tokens_literals : tokenize "0x1FuL + 12ull * 0b101 - n" = Some ["0x1F"; "+"; "12"; "*"; "0b101"; "-"; "n"]
   /\ wf_wtok (chars_of "0x1FuL") (chars_of "0x1F") /\ wf_wtok (chars_of "12ull") (chars_of "12").
 Proof.
